@@ -126,7 +126,7 @@ def match_value(ev, val: cif11.Value, env=None):
         return None if str_matches(ev[1], text) else f'string {_short(ev[1])} read back as {_short(text)}'
     if k == 'any':
         return None
-    if k == 'nonblank':
+    if k in ('nonblank', 'unique'):   # 'unique': distinctness is judged per column
         return None if text.strip(BLANKS) else 'empty value'
     if k == 'oneof':
         return None if text.strip(BLANKS) in ev[1] else f'{_short(text)} not one of {sorted(ev[1])}'
@@ -594,6 +594,10 @@ def _compare_item(it: XItem, p, env):
         return out
     for c, tag in enumerate(it.tags):
         pc = order[c]
+        if nrows and it.cols[c][0][0] == 'unique':
+            ids = [p.rows[r][pc].text for r in range(nrows)]
+            if len(set(ids)) != len(ids):
+                return [('value', f'_{tag}: identifiers are not unique: {ids[:10]}')]
         for r in range(nrows):
             why = match_value(it.cols[c][r], p.rows[r][pc], env)
             if why:
@@ -1200,7 +1204,7 @@ def gen_builder(rng, cif, md, tmpdir, k):
             ctag = 'pd_meas.time_of_flight' if dim == 'tof' else 'pd_proc.d_spacing'
             dtag = 'pd_proc.' + (dname or 'intensity_norm')
             tags = ['pd_data.point_id', ctag]
-            cols = [[('int', i) for i in range(n)], [('f64', x) for x in cx]]
+            cols = [[('unique',)] * n, [('f64', x) for x in cx]]
             if cv is not None:
                 tags.append(ctag + '_su')
                 cols.append([('su', v, False) for v in cv])
@@ -1307,12 +1311,13 @@ def plan(tier, seed):
 
 
 def requirements(tier):
+    # minimum number of *judged* observations; the quick tier produces 4x..20x these
     return {
-        'events': {'token': 20000, 'document': int(0.9 * DOCS[tier]), 'comment': 500, 'roles': 50,
-                   'su_column': 100, 'value_su': 500, 'document.save_cif': 1000,
-                   'document.Block.write': 20, '_quotes_for_string_value': 20000,
+        'events': {'token': 20000, 'document': int(0.9 * DOCS[tier]), 'comment': 2000, 'roles': 30,
+                   'su_column': 80, 'value_su': 1500, 'document.save_cif': 1500,
+                   'document.Block.write': 40, '_quotes_for_string_value': 20000,
                    '_encode_non_ascii': 20000, 'Chunk.write': 1000, 'Loop.write': 1000,
-                   '_serialize_authors': 100, '_serialize_roles': 50, 'CIF.save': 200},
+                   '_serialize_authors': 200, '_serialize_roles': 100, 'CIF.save': 300},
         'forced': ['str:' + n for n, _ in FORCED] + ['empty_block_name', 'file_comment_non_ascii',
                                                       'loop_50_rows', 'loop_6_columns'],
     }
